@@ -86,7 +86,7 @@ def getIndexIR (c : IdxConst) : Option Index :=
     let v64 := IntLit.int64Of v
     if allEq v64 (vs.map IntLit.int64Of) then some ⟨true, v64, vs.length + 1, false⟩ else some ⟨false, 0, vs.length + 1, false⟩
   | .vecOther 0 => some ⟨false, 0, 0, false⟩
-  | .vecOther _ => none                       -- panic: unsupported element
+  | .vecOther n => some ⟨false, 0, n, false⟩   -- an element that is not an integer literal (undef, poison, an expression): no single value, but the length
   | .undef => some ⟨false, 0, 0, false⟩
   | .poison => some ⟨false, 0, 0, false⟩
   | .expr _ => some ⟨false, 0, 0, false⟩
@@ -115,7 +115,7 @@ def getIndexAsm : IdxConst → Option Index
   | .zero => some ⟨true, 0, 0, false⟩
   | .vecInts vs => getIndexIR (.vecInts vs)
   | .vecOther 0 => some ⟨false, 0, 0, false⟩
-  | .vecOther _ => none
+  | .vecOther n => some ⟨false, 0, n, false⟩
   | .undef => some ⟨false, 0, 0, false⟩
   | .poison => some ⟨false, 0, 0, false⟩
   | .expr _ => some ⟨false, 0, 0, false⟩
